@@ -34,6 +34,7 @@ def how_coq(h):
 def run_ag(nruns, plan_by_run, njobs=1):
     """plan_by_run: {run index: behaviour}; returns (outcome, leftover entries)"""
     d = tempfile.mkdtemp(prefix='c16-ag-')
+    nthreads = threading.active_count()      # the main thread, plus joblib's process-pool threads once dpseg ran with several jobs
     try:
         work = os.path.join(d, 'tmp')
         os.mkdir(work)
@@ -49,7 +50,7 @@ def run_ag(nruns, plan_by_run, njobs=1):
             res = ('raise', type(e).__name__)
         # wait for worker threads (stderr readers, sibling runs) to finish
         t0 = time.time()
-        while threading.active_count() > 1 and time.time() - t0 < 5:
+        while threading.active_count() > nthreads and time.time() - t0 < 5:
             time.sleep(0.02)
         left = sorted(os.listdir(work))
         return res, left
@@ -80,6 +81,109 @@ def run_dpseg(nfolds, plan_by_call):
     finally:
         os.environ.pop('DPSEG_STUB_PLAN', None)
         shutil.rmtree(d, ignore_errors=True)
+
+
+# ---- dpseg with several jobs ----
+# joblib runs the folds in worker processes that keep the environment (and so the temporary directory and the plan
+# file name) they were started with: both are fixed from the first parallel scenario to the end of the process, only
+# the content of the plan file changes. With parallel folds there is no invocation order, so a fold's fate is keyed
+# by its input, discovered beforehand by sequential runs that fail at fold k (the stand-in records what it received).
+_PAR = {}
+
+
+def par_setup():
+    if not _PAR:
+        import atexit
+        root = tempfile.mkdtemp(prefix='c16-par-')
+        atexit.register(shutil.rmtree, root, ignore_errors=True)
+        for sub in ('tmp', 'cap'):
+            os.mkdir(os.path.join(root, sub))
+        _PAR.update(root=root, tmp=os.path.join(root, 'tmp'), cap=os.path.join(root, 'cap'), plan=os.path.join(root, 'plan.json'), folds={})
+    return _PAR
+
+
+def fold_inputs(nfolds):
+    """sha1 of the input of every fold, in fold order"""
+    par = par_setup()
+    if nfolds not in par['folds']:
+        hs, prev = [], set()
+        for k in range(nfolds):
+            for f in os.listdir(par['cap']):
+                os.remove(os.path.join(par['cap'], f))
+            counter = os.path.join(par['root'], 'counter')
+            if os.path.exists(counter):
+                os.remove(counter)
+            json.dump({'by_call': [{} for _ in range(k)] + [{'how': ['exit', 1]}], 'counter': counter}, open(par['plan'], 'w'))
+            os.environ['DPSEG_STUB_PLAN'] = par['plan']
+            os.environ['DPSEG_STUB_CAPTURE'] = par['cap']
+            try:
+                list(dpseg.segment(list(TEXT), nfolds=nfolds, njobs=1, args='--randseed 1'))
+            except RuntimeError:
+                pass
+            finally:
+                os.environ.pop('DPSEG_STUB_CAPTURE', None)
+                os.environ.pop('DPSEG_STUB_PLAN', None)
+            cur = {f[:-3] for f in os.listdir(par['cap']) if f.endswith('.in')}
+            if len(cur - prev) != 1:
+                raise RuntimeError('cannot tell the input of fold %d of %d apart' % (k, nfolds))
+            hs.append((cur - prev).pop())
+            prev = cur
+        par['folds'][nfolds] = hs
+    return par['folds'][nfolds]
+
+
+def run_dpseg_par(nfolds, plan_by_fold, njobs):
+    par = par_setup()
+    hs = fold_inputs(nfolds)
+    json.dump({'by_input_sha1': {hs[i]: b for i, b in plan_by_fold.items()}}, open(par['plan'], 'w'))
+    # from here to the end of the process (worker processes may be started at any later parallel call)
+    os.environ['DPSEG_STUB_PLAN'] = par['plan']
+    os.environ['TMPDIR'] = par['tmp']
+    try:
+        out = list(dpseg.segment(list(TEXT), nfolds=nfolds, njobs=njobs, args='--randseed 1'))
+        res = ('ok', out)
+    except Exception as e:  # noqa
+        res = ('raise', type(e).__name__)
+    finally:
+        pass
+    # sibling folds may still be running in their worker: wait for them before looking at the directory
+    t0 = time.time()
+    while os.listdir(par['tmp']) and time.time() - t0 < 1.0:
+        time.sleep(0.05)
+    left = sorted(os.listdir(par['tmp']))
+    for f in left:
+        p = os.path.join(par['tmp'], f)
+        shutil.rmtree(p, ignore_errors=True) if os.path.isdir(p) else os.remove(p)
+    json.dump({}, open(par['plan'], 'w'))
+    return res, left
+
+
+def parallel_scenarios(ck, scs):
+    """(kind, n, plan, njobs) with njobs in 2..3: the whole matrix for n in 2..3 in the thorough tier, in the quick tier
+    every failing index x exit mode once (failure points in rotation) and the all-succeed rows"""
+    res = []
+    if ck.thorough:
+        for kind, n, plan in scs:
+            if n >= 2:
+                for nj in (2, 3):
+                    res.append((kind, n, plan, nj))
+        res.sort(key=lambda r: r[0] != 'ag')
+        return res
+    ag_points = [dict(complete=0, partial=0), dict(complete=1, partial=1), dict(complete=2, partial=0), dict(complete=None), dict(complete=None, late=True)]
+    dp_points = [dict(written=0), dict(written=1), dict(written=None), dict(written=None, late=True)]
+    k = 0
+    for n, nj in ((3, 2), (3, 3), (2, 2)):
+        if (n, nj) != (3, 3):
+            res.append(('ag', n, {}, nj))
+            res.append(('dpseg', n, {}, nj))
+        for i in range(n):
+            for how in ([HOWS[0], HOWS[3]] if (n, nj) == (3, 2) else [HOWS[1 + k % 2]]):
+                res.append(('ag', n, {i: dict(ag_points[k % len(ag_points)], how=list(how))}, nj))
+                res.append(('dpseg', n, {i: dict(dp_points[k % len(dp_points)], how=list(how))}, nj))
+                k += 1
+    # every ag scenario first: once joblib's process pool exists its threads stay in this process
+    res.sort(key=lambda r: r[0] != 'ag')
+    return res
 
 
 def scenarios(ck):
@@ -136,16 +240,16 @@ def main():
         else:
             res, left = run_dpseg(n, plan)
         observed.append((res, left))
+    # several jobs (after the sequential scenarios: see par_setup)
     njobs_obs = []
-    if ck.thorough:
-        for kind, n, plan in [s for s in scs if s[0] == 'ag' and s[1] == 3][:60]:
-            for nj in (2, 3):
-                njobs_obs.append(((kind, n, plan, nj), run_ag(n, plan, njobs=nj)))
+    for kind, n, plan, nj in parallel_scenarios(ck, scs):
+        njobs_obs.append(((kind, n, plan, nj), run_ag(n, plan, njobs=nj) if kind == 'ag' else run_dpseg_par(n, plan, nj)))
+        ck.count('njobs:%s:%d' % (kind, nj))
     # the property itself, on the implementation
     bad = []
-    for (kind, n, plan), (res, left) in list(zip(scs, observed)) + [((k, n, p), o) for (k, n, p, nj), o in njobs_obs]:
+    for (kind, n, plan, nj), (res, left) in [((k, n, p, 1), o) for (k, n, p), o in zip(scs, observed)] + njobs_obs:
         fails = any(b.get('how', ['ok'])[0] != 'ok' for b in plan.values())
-        desc = {'wrapper': kind, 'nruns_or_nfolds': n, 'behaviours': {str(k): v for k, v in plan.items()}}
+        desc = {'wrapper': kind, 'nruns_or_nfolds': n, 'njobs': nj, 'behaviours': {str(k): v for k, v in plan.items()}}
         ck.case(json.dumps(desc, sort_keys=True), fails, sample={'scenario': desc, 'observed': repr(res)[:120], 'left_behind': left})
         ck.count('wrapper:' + kind)
         ck.count('outcome:' + (res[0] if res[0] == 'ok' else res[1]))
@@ -164,7 +268,7 @@ def main():
                  'Definition oeqb (a b : outcome) : bool := match a, b with Returned, Returned => true | Raised x, Raised y => Z.eqb (exn_code x) (exn_code y) | _, _ => false end.',
                  'Definition scs : list (bool * list how * outcome * bool) := [']
         items = []
-        for (kind, n, plan), (res, left) in zip(scs, observed):
+        for (kind, n, plan), (res, left) in list(zip(scs, observed)) + [((k, n, p), o) for (k, n, p, nj), o in njobs_obs]:
             hs = '[' + '; '.join(how_coq(tuple(plan[i]['how']) if i in plan else None) for i in range(n)) + ']'
             oc = 'Returned' if res[0] == 'ok' else ('Raised RuntimeError' if res[1] == 'RuntimeError' else 'Raised ValueError')
             items.append('  (%s, %s, %s, %s)' % ('true' if kind == 'ag' else 'false', hs, oc, 'true' if left else 'false'))
@@ -203,7 +307,7 @@ def main():
         level='proof',
         rule='fault enumeration: every (nruns or nfolds in 1..3, failing index, failure point [before output / after 1 or 2 complete parses / mid-parse / at the end; '
              'for dpseg after 0, 1 or all lines], exit mode in {exit 1, exit 3, SIGSEGV, SIGKILL}) and the all-succeed rows, real ag.segment / dpseg.segment '
-             'driving the scripted stand-ins with a private temporary directory (thorough: two simultaneous failures, njobs 2-3); outcome and directory listing compared with '
+             'driving the scripted stand-ins with a private temporary directory; both wrappers again with njobs 2-3 (quick: every failing index x {exit 1, SIGKILL} for 3 runs/folds on 2 jobs, every failing index with exit 3 / SIGSEGV in rotation for 3 on 3 and 2 on 2, failure points in rotation; thorough: the whole matrix, and two simultaneous failures); outcome and directory listing compared with '
              'the model evaluated in Coq on the generated configuration. Non-trivial = a scenario with a failing process.',
         assumptions=['bash pipeline status, Popen.returncode, gzip of a truncated stream and joblib exception propagation are modelled (AG/Proc.v) and tied by this enumeration',
                      'temp files are observed after the worker threads have finished'],
